@@ -39,6 +39,7 @@ META = {
 META["claim"] += " " + 'Also: long strings with an open multi-byte sequence ending at or next to k x 2^n, a run of whole ASCII blocks, then the continuation (validators with block-wise fast paths are not small DFAs); close reasons under codes 1000/1011/3000/4999.'
 META["claim"] += " " + 'Round 3b: about half of the receive cases with trace logging on; after a rejected message the same connection receives further valid and invalid messages, each judged on its own.'
 META["claim"] += " " + 'Round 4: the corpus through WebSocketApp with and without on_cont_message; texts with BOM etc.; ambient conditions drawn per connection on the receive path.'
+META["claim"] += " " + 'Round 5: payloads beyond 16 MiB (truncated tail, surrogate at the end, overlong inside, well-formed); close reasons through WebSocketApp with four callback sets (incl. none that receives messages).'
 
 
 def classify(data: bytes) -> str:
